@@ -104,6 +104,19 @@ _ENUM_CALL = enum.Enum.__call__.__func__
 _SELF_PARAM = inspect.Parameter("__self", inspect.Parameter.POSITIONAL_ONLY)
 
 
+def _is_passthrough_new(new: FunctionType) -> bool:
+    """Whether *new* is ``def __new__(cls, *args, **kwargs)`` without annotations."""
+    try:
+        params = list(inspect.signature(new).parameters.values())[1:]
+    except (TypeError, ValueError):
+        return False
+    return bool(params) and all(
+        param.kind in (inspect.Parameter.VAR_POSITIONAL, inspect.Parameter.VAR_KEYWORD)
+        and param.annotation is inspect.Parameter.empty
+        for param in params
+    )
+
+
 @used  # exposed as an API
 @contextlib.contextmanager
 def with_implementation(fn: object, implementation_fn: Impl) -> Iterator[None]:
@@ -895,7 +908,12 @@ class ArgSpecCache:
                     # could try __new__ first and fall back to __init__ if __new__
                     # doesn't have a useful signature.
                     # In practice, we saw this make a difference with NamedTuples.
-                    elif isinstance(obj.__new__, FunctionType):
+                    # A pass-through ``__new__(cls, *args, **kwargs)`` accepts anything;
+                    # the arguments are really constrained by ``__init__``.
+                    elif isinstance(obj.__new__, FunctionType) and not (
+                        _is_passthrough_new(obj.__new__)
+                        and isinstance(obj.__init__, FunctionType)
+                    ):
                         is_dunder_new = True
                         constructor = obj.__new__
                     else:
